@@ -135,7 +135,7 @@ def _coef(ctx, J, eps):
     ctx.prec = wppi
     pipower = {}
     pipower[0] = ctx.one
-    pipower[1] = ctx.pi
+    pipower[1] = +ctx.pi
     for n in range(2,2*newJ+1):
         pipower[n] = pipower[n-1]*ctx.pi
 
@@ -197,14 +197,24 @@ def coef(ctx, J, eps):
     _cache = ctx._rs_cache
     if J <= _cache[0] and eps >= _cache[1]:
         return _cache[2], _cache[3]
-    orig = ctx._mp.prec
+    mp = ctx._mp
+    orig = mp.prec
+    foreign = ctx is not mp
+    if foreign:
+        # The table is computed in the global mp context on behalf of
+        # another context (fp): it must not depend on mp's current settings
+        settings = mp._prec_rounding[1], mp.trap_complex
+        mp._prec_rounding[1] = 'n'
+        mp.trap_complex = False
     try:
-        data = _coef(ctx._mp, J, eps)
+        data = _coef(mp, J, eps)
+        if foreign:
+            data[2] = dict((k,ctx.convert(v)) for (k,v) in data[2].items())
+            data[3] = dict((k,ctx.convert(v)) for (k,v) in data[3].items())
     finally:
-        ctx._mp.prec = orig
-    if ctx is not ctx._mp:
-        data[2] = dict((k,ctx.convert(v)) for (k,v) in data[2].items())
-        data[3] = dict((k,ctx.convert(v)) for (k,v) in data[3].items())
+        mp.prec = orig
+        if foreign:
+            mp._prec_rounding[1], mp.trap_complex = settings
     ctx._rs_cache[:] = data
     return ctx._rs_cache[2], ctx._rs_cache[3]
 
